@@ -1469,6 +1469,112 @@ def run_atime_stream(ctx, n):
     ctx.cov["array_time_stream"] = stats
 
 
+# ------------------------------------------------------------------ array-valued ADC phase on batches with several axes
+NDSHAPES = [(2, 2), (2, 3), (3, 2), (2, 2, 2), (3, 3), (2, 1, 3), (2, 3, 2)]
+
+
+def gen_ndphase_case(rng, k=0):
+    shape = NDSHAPES[k % len(NDSHAPES)]
+    nd = len(shape)
+    # the phase array has fewer (or as many) dimensions than the batch: epgpy appends the missing axes
+    pkind = ["lead1", "lead1", "full", "lead2" if nd == 3 else "col", "scalar"][(k // len(NDSHAPES) + k) % 5]
+    pshape = {"lead1": shape[:1], "lead2": shape[:2], "full": shape, "col": shape[:1] + (1,) * (nd - 1), "scalar": ()}[pkind]
+    def ph():
+        return float(rng.choice([20.0, 115.0, 90.0, -45.0, 200.5, 33.0, 270.0]))
+    phase = np.array([ph() for _ in range(int(np.prod(pshape)))]).reshape(pshape).tolist() if pshape else ph()
+    case = {"shape": list(shape), "phase_kind": pkind, "phase": phase,
+            "alpha": [float(rng.choice([25, 35, 70, 90, 120])) for _ in range(shape[0])],
+            "T2": [float(rng.choice([30, 40, 90, 150])) for _ in range(shape[1])],
+            "g": [float(rng.choice([0.0, 0.013, -0.02])) for _ in range(shape[2])] if nd == 3 else float(rng.choice([0.0, 0.013])),
+            "tau": float(rng.choice([3.5, 7.0])), "attr": rng.choice(["F0", "F0", "Z0"]),
+            "shift": rng.random() < 0.4, "second_phase": rng.random() < 0.5,
+            "override": rng.choice([None, None, "Z0", "F0", ["Z0", None], ["probe:F0+2*Z0", "F0"], "probe:Z0"])}
+    return case
+
+
+def ndphase_sequence(case, idx=None):
+    """idx=None: the batched sequence with Adc(phase=array); idx=(i,j[,k]): scalar sequence of that entry, plain Adc"""
+    import epgpy as epg
+    nd = len(case["shape"])
+    if idx is None:
+        a = np.array(case["alpha"])
+        t2 = np.array(case["T2"]).reshape((1, -1))
+        g = np.array(case["g"]).reshape((1, 1, -1)) if nd == 3 else case["g"]
+        adc1 = epg.Adc(case["attr"], phase=case["phase"])
+        adc2 = adc1 if not case["second_phase"] else epg.Adc(case["attr"], phase=np.asarray(case["phase"]) + 30.0)
+    else:
+        a, t2 = case["alpha"][idx[0]], case["T2"][idx[1]]
+        g = case["g"][idx[2]] if nd == 3 else case["g"]
+        adc1 = adc2 = epg.Adc(case["attr"])
+    rlx = epg.E(case["tau"], 800.0, t2, g, duration=True)
+    sh = [epg.S(1)] if case["shift"] else []
+    return [epg.T(a, 90)] + sh + [rlx, adc1, epg.T(150, 0)] + sh + [rlx, adc2, epg.T(40, 30), rlx, adc1]
+
+
+def ndphase_override(ov):
+    import epgpy as epg
+    def one(o):
+        return epg.Probe(o[6:]) if isinstance(o, str) and o.startswith("probe:") else o
+    if ov is None:
+        return None
+    return [one(o) for o in ov] if isinstance(ov, list) else one(ov)
+
+
+def ndphase_case_disagrees(case):
+    import epgpy as epg
+    shape = tuple(case["shape"])
+    nd = len(shape)
+    seq = ndphase_sequence(case)
+    if tuple(epg.functions.getshape(seq)) != shape:
+        raise AssertionError("generator: batch shape %s instead of %s" % (epg.functions.getshape(seq), shape))
+    ov = case["override"]
+    got = epg.simulate(seq, probe=ndphase_override(ov), asarray=False)
+    series = list(got) if isinstance(ov, list) else [got]
+    ph = np.asarray(case["phase"], dtype=float)
+    ph = np.broadcast_to(ph.reshape(ph.shape + (1,) * (nd - ph.ndim)), shape)          # missing axes are appended
+    offs = [0.0, 30.0 if case["second_phase"] else 0.0, 0.0]
+    for idx in np.ndindex(*shape):
+        ref = epg.simulate(ndphase_sequence(case, idx), probe=ndphase_override(ov), asarray=False)
+        ref = list(ref) if isinstance(ov, list) else [ref]
+        for s, (g_s, r_s) in enumerate(zip(series, ref)):
+            for j in range(3):
+                g_arr = np.asarray(g_s[j])
+                if g_arr.shape != shape:
+                    return "entry %d of probe %d has shape %s, the batch has shape %s" % (j, s, g_arr.shape, shape)
+                a = math.radians(ph[idx] + offs[j])
+                want = complex(np.ravel(r_s[j])[0]) * complex(math.cos(a), math.sin(a))
+                if not abs(complex(g_arr[idx]) - want) <= 1e-10 * (1 + abs(want)):
+                    return ("ADC occurrence %d, probe %d, batch entry %s: recorded %s; scalar re-run times exp(i*%s deg) = %s "
+                            "(phase array of shape %s on a batch of shape %s)" % (j, s, idx, complex(g_arr[idx]), ph[idx] + offs[j], want,
+                                                                               np.shape(case["phase"]), shape))
+    return None
+
+
+def run_ndphase_stream(ctx, n):
+    """Adc(phase=array) in sequence (also under a probe= override) on batches with 2 or 3 axes: every batch entry equals its
+    scalar re-run (plain Adc) times the scalar phasor of the LEADING-axes-aligned phase array"""
+    stats = {"cases": 0, "shapes": {}, "phase_kinds": {}, "overrides": 0}
+    reported = 0
+    for i in range(n):
+        case = gen_ndphase_case(ctx.rng, i)
+        try:
+            why = ndphase_case_disagrees(case)
+        except Exception as e:
+            why = "simulate raised %s with Adc(phase=array of shape %s) on a batch of shape %s: %s" % (
+                type(e).__name__, np.shape(case["phase"]), tuple(case["shape"]), str(e)[:160])
+        stats["cases"] += 1
+        stats["shapes"][str(tuple(case["shape"]))] = stats["shapes"].get(str(tuple(case["shape"])), 0) + 1
+        stats["phase_kinds"][case["phase_kind"]] = stats["phase_kinds"].get(case["phase_kind"], 0) + 1
+        stats["overrides"] += case["override"] is not None
+        ctx.count(("ndphase", repr(case)), nontrivial=case["phase_kind"] != "scalar")
+        if why:
+            reported += 1
+            if reported <= 4:
+                ctx.report(why, {"ndphase_case": case}, found_input=True,
+                           signature={"stream": "nd_phase", "phase": case["phase_kind"], "batch_axes": len(case["shape"]), "why": why[:16]})
+    ctx.cov["nd_phase_stream"] = stats
+
+
 # ------------------------------------------------------------------ phasor stream (Interval inside Coq)
 PHEADER = """From Coq Require Import Reals.
 From Interval Require Import Tactic.
@@ -1597,6 +1703,7 @@ def run(ctx):
     run_mod_stream(ctx, 100 if quick else 1500)
     run_adur_stream(ctx, 25 if quick else 400)
     run_atime_stream(ctx, 40 if quick else 600)
+    run_ndphase_stream(ctx, 21 if quick else 210)
     run_phasor_stream(ctx, 12 if quick else 120)
     run_grouping_probes(ctx)
     ctx.cov["trusted_base"] += [
@@ -1658,6 +1765,11 @@ def replay(ctx, rp):
             why = atime_case_disagrees(case)
         except Exception as e:
             why = "simulate()/get_adc_times raised %s: %s" % (type(e).__name__, e)
+    elif "ndphase_case" in rp:
+        try:
+            why = ndphase_case_disagrees(rp["ndphase_case"])
+        except Exception as e:
+            why = "simulate raised %s: %s" % (type(e).__name__, e)
     elif "adur_case" in rp:
         try:
             why = adur_case_disagrees(rp["adur_case"])
